@@ -202,10 +202,11 @@ func Doc(id string, keys string, maxLen int, tags uint32, depth int) primitive.D
 }
 
 func doc(id string, keys []string, maxLen int, tags uint32, depth int) primitive.D {
-	if maxLen > len(keys) {
-		maxLen = len(keys)
+	fields := maxLen
+	if fields > len(keys) {
+		fields = len(keys)
 	}
-	n := Choice(id+".len", maxLen+1)
+	n := Choice(id+".len", fields+1)
 	d := make(primitive.D, n)
 	rest := append([]string{}, keys...)
 	for i := range d {
